@@ -26,7 +26,7 @@ def describe(case, step, code):
 
 
 def run(res):
-    return standard_flow(res, hx="c09", corr="C09_run", n=NCASES[res.tier], signature=signature, describe=describe,
+    return standard_flow(res, hx="c09", corr="C09_run", n=NCASES[res.tier], signature=signature, describe=describe, shard=75 if res.tier == 'quick' else 1000,
                          rule="histories of Setup/Ready(known, unknown, repeated)/Restore/Timeout ops on a real open_game_manager "
                               "(1 s timeouts run for real); distinct = distinct op sequences; non-trivial = at least one callback fired or one error returned",
                          nontrivial=lambda c: any(o["out"] != "none" for o in c["trace"]),
